@@ -1027,6 +1027,46 @@ def run(ctx: Any, prog: Program) -> None:
         conds = [a for a in _anc06(vm, w31, vex) if isinstance(a, (ast.If, ast.IfExp))]
         ctx.check('C06.V31', not conds, vm, w31, f'VMF.export writes the visgroups block only when `{U(conds[0].test)[:40] if conds else ""}`: with that option the visgroup names, colours and nesting are not in the file while '
                   'brushes and entities still carry their visgroup ids - the re-read map has an empty tree', func='VMF.export', text='visgroups block written unconditionally')
+    # ---- V32: a group's keys are read from the block they are written in ------------------------------------------------------------------------
+    # EntityGroup.export writes `id` in the group block and the three display keys inside its `editor` block; parse reads each key from the
+    # block it was written to (a key looked up one level too high is simply not found, and the default takes its place).
+    ctx.rule('C06.V32', 'EntityGroup.parse reads every key from the block EntityGroup.export writes it in', floor=4)
+    ge, gp = vm.func('EntityGroup.export'), vm.func('EntityGroup.parse')
+    consts32 = sorted([c for c in ast.walk(ge) if isinstance(c, ast.Constant) and isinstance(c.value, str)], key=lambda c: (c.lineno, c.col_offset))
+    where32: Dict[str, str] = {}
+    in_editor = False
+    for c in consts32:
+        if re.search(r'\beditor\b', c.value) and '"' not in c.value:
+            in_editor = True
+        for k in re.findall(r'"([a-z_]+)" "', c.value):
+            where32[k] = 'editor' if in_editor else 'group'
+    ed_locals = {t.id for a in ast.walk(gp) if isinstance(a, ast.Assign) and isinstance(a.value, ast.Call) and isinstance(a.value.func, ast.Attribute) and a.value.func.attr in ('find_block', 'find_key')
+                 and a.value.args and isinstance(a.value.args[0], ast.Constant) and a.value.args[0].value == 'editor' for t in a.targets if isinstance(t, ast.Name)}
+    top_param = gp.args.args[-1].arg
+    n32 = 0
+    for c in [c for c in ast.walk(gp) if isinstance(c, ast.Call) and isinstance(c.func, ast.Attribute) and isinstance(c.func.value, ast.Name) and c.args and isinstance(c.args[0], ast.Constant) and isinstance(c.args[0].value, str)
+              and c.func.attr in ('int', 'bool', 'vec', 'float', '__getitem__', 'find_key')]:
+        key, recv = c.args[0].value, c.func.value.id
+        if key not in where32:
+            continue
+        got = 'editor' if recv in ed_locals else ('group' if recv == top_param else None)
+        if got is None:
+            ctx.shape('C06.V32', False, vm, c, f'EntityGroup.parse reads `{key}` from `{recv}`, which is neither the group block nor its editor block', func='EntityGroup.parse', text=f'group key {key} read where it is written')
+            continue
+        n32 += 1
+        ctx.check('C06.V32', got == where32[key], vm, c, f'EntityGroup.parse reads `{key}` from the {got} block, EntityGroup.export writes it in the {where32[key]} block: the key is never found and the group comes back with '
+                  'the default (a coloured group turns white)', func='EntityGroup.parse', text=f'group key {key} read where it is written')
+    ctx.shape('C06.V32', n32 >= 4, vm, gp, f'{n32} keyed reads found in EntityGroup.parse (id, visgroupshown, visgroupautoshown, color)', func='EntityGroup.parse', text='group keys')
+    # ---- V33: a face may carry a displacement AND Strata point data ------------------------------------------------------------------------------
+    # Side.export writes the `dispinfo` block and the `point_data` block independently; Side.parse must look for both, not for one or the other
+    sp33 = vm.func('Side.parse')
+    ifs33 = [i for i in ast.walk(sp33) if isinstance(i, ast.If)]
+    def _mentions(i: ast.If, w: str) -> bool:
+        return any(isinstance(c, ast.Constant) and c.value == w for c in ast.walk(i.test))
+    for i33 in [i for i in ifs33 if _mentions(i, 'dispinfo')]:
+        nested33 = [j for j in ifs33 if _mentions(j, 'point_data') and any(j is x for st in i33.orelse for x in ast.walk(st))]
+        ctx.check('C06.V4', not nested33, vm, nested33[0] if nested33 else i33, 'Side.parse looks for the `point_data` block only when the face has no `dispinfo` block (an elif): Side.export writes both for a displacement face '
+                  'with Strata points, so the points are lost on re-parse', func='Side.parse', text='dispinfo and point_data are read independently')
     ctx.rule('C06.V22', 'the presence test of an optional per-vertex block looks at every per-vertex field the block carries', floor=1)
     ed22 = vm.func('Side._export_displacement')
     n22 = 0
@@ -1699,6 +1739,7 @@ def elt_token_alternatives(elt: ast.AST, tokens_of_type: Dict[str, int]) -> Opti
 
 
 MUTANTS = [
+    {'id': 'group_colour_read_from_group_block', 'file': 'vmf.py', 'find': "            editor_block.vec('color', 255, 255, 255),", 'replace': "            props.vec('color', 255, 255, 255),", 'expect': 'C06.V32', 'note': 'round 14'},
     {'id': 'visgroups_only_without_minimal', 'file': 'vmf.py', 'find': "        dest_file.write('visgroups\\n{\\n')\n        for vis in self.vis_tree:\n            vis.export(dest_file, ind='\\t')\n        dest_file.write('}\\n')\n", 'replace': "        if not minimal:\n            dest_file.write('visgroups\\n{\\n')\n            for vis in self.vis_tree:\n                vis.export(dest_file, ind='\\t')\n            dest_file.write('}\\n')\n", 'expect': 'C06.V31', 'note': 'round 13'},
     {'id': 'entity_parse_invents_groups', 'file': 'vmf.py', 'find': "                        elif editor_prop.name == 'groupid':\n                            group_ids.append(int(editor_prop.value))", 'replace': "                        elif editor_prop.name == 'groupid':\n                            group_ids.append(int(editor_prop.value))\n                            vmf_file.groups.setdefault(group_ids[-1], EntityGroup(vmf_file, group_ids[-1]))", 'expect': 'C06.V29', 'refuse_ok': True, 'note': 'round 12'},
     {'id': 'solid_vis_shown_coupled_to_hidden', 'file': 'vmf.py', 'find': "            buffer.write(f'{ind}\\t\\t\"visgroupshown\" \"{srctools.bool_as_int(self.vis_shown)}\"\\n')\n            buffer.write(f'{ind}\\t\\t\"visgroupautoshown\" \"{srctools.bool_as_int(self.vis_auto_shown)}\"\\n')\n            buffer.write(f'{ind}\\t\\t\"logicalpos\"", 'replace': "            buffer.write(f'{ind}\\t\\t\"visgroupshown\" \"{srctools.bool_as_int(self.vis_shown and not self.hidden)}\"\\n')\n            buffer.write(f'{ind}\\t\\t\"visgroupautoshown\" \"{srctools.bool_as_int(self.vis_auto_shown)}\"\\n')\n            buffer.write(f'{ind}\\t\\t\"logicalpos\"", 'expect': 'C06.V28', 'note': 'round 12'},
